@@ -1242,7 +1242,17 @@ def abi_problems(abi):
     return [tuple(x.split(":")) for x in abi.split(",")]
 
 
-def dynamic_c19(rep, tier, only=None):
+def dynamic_c19(rep, tier, only=None, dispatch=True):
+    """the dynamic half of C19: (1) every exported text symbol of the shipped (plain) build x
+    argument classes, (2) with the hook build, the first call of every dispatched entry under
+    every virtual CPUID preset.  Adds cases / violations / notes to rep."""
+    r = dynamic_c19_plain(rep, tier, only)
+    if dispatch:
+        dynamic_c19_dispatch(rep, tier, only)
+    return r
+
+
+def dynamic_c19_plain(rep, tier, only=None):
     """every exported text symbol x argument classes; adds cases / violations to rep"""
     text, _ = archive_syms("plain")
     typed, untyped, notcalled = _inventory(text)
@@ -1302,6 +1312,72 @@ def dynamic_c19(rep, tier, only=None):
     if not_exercised and not only:
         rep.violation("typed symbols no scenario called: %s" % not_exercised[:20], {"not_exercised": not_exercised}, {"kind": "not_exercised"}, no_input=True)
     return per_sym, classes
+
+
+PRESETS = ["base", "sse", "avx", "avx2", "avx512", "avx512g2", "sse_ni", "avx512_ni", "host"]
+
+
+def dynamic_c19_dispatch(rep, tier, only=None):
+    """dispatcher first call under every virtual CPUID preset (hook build): every dispatched
+    entry is called for the first time in a fresh process whose CPUID/XGETBV are presented by
+    harness/vcpuid.S, so the observed call runs <entry>_mbinit -> <entry>_dispatch_init (a
+    different push/pop ladder and a different exit per preset) -> the bound family routine."""
+    text, disp = archive_syms("hook")
+    exe = driver("hook")
+    seed = vlib.seed()
+    entries = [d[:-len("_dispatched")] for d in disp]
+    scripts, owner = [], {}
+    for e in entries:
+        if only and not re.search(only, e):
+            continue
+        sc = scenarios(e, seed * 53, seed * 59 + 300, "c19", "quick")
+        pick = [s for s in sc if not re.search(r"null|err_|bad_|len_not|len15|len_over|w_too_big", s.sid)][: (2 if tier == "quick" else 6)]
+        for s in pick:
+            for pz in PRESETS:
+                import copy
+                t = copy.deepcopy(s)
+                t.sid = "%s@%s" % (s.sid, pz)
+                t.c.insert(0, "v " + pz)
+                for sym in sorted({m["sym"] for m in t.meta.values()}):
+                    if sym in entries:
+                        t.c.append("b " + sym)
+                scripts.append(t)
+                owner[t.sid] = pz
+    res = run_scripts(exe, scripts)
+    bound, seen = {}, set()
+    for t in scripts:
+        r = res[t.sid]
+        pz = owner[t.sid]
+        if "crash" in r["flags"]:
+            rep.violation("dispatcher first call under preset %s: scenario %s crashed %s" % (pz, t.sid, [f for f in r["flags"] if f.startswith("sig=")]),
+                          {"scenario": t.sid, "preset": pz, "script": t.line()[:4000]}, {"kind": "dispatch-crash", "scenario": t.sid.split("@")[0], "preset": pz})
+        for bsym in r.get("bound", []):
+            bound.setdefault(pz, {}).setdefault(bsym.rsplit("_", 1)[-1] if False else bsym, 0)
+            bound[pz][bsym] += 1
+        first = set()
+        for i, m in sorted(t.meta.items()):
+            c = r["calls"].get(i)
+            if c is None:
+                continue
+            is_first = m["sym"] in entries and m["sym"] not in first
+            first.add(m["sym"])
+            if is_first:
+                seen.add((m["sym"], pz))
+            rep.case((m["sym"], m["cls"], t.sid), True)
+            for reg, before, after in abi_problems(c["abi"]):
+                rep.violation("%s [%s, %s under CPUID preset %s]: %s not preserved: %s before, %s after" % (
+                                  m["sym"], m["cls"], "dispatcher first call" if is_first else "bound call", pz, reg, before, after),
+                              {"symbol": m["sym"], "class": m["cls"], "preset": pz, "first_call": is_first, "args": m["args"], "register": reg,
+                               "before": before, "after": after, "scenario": t.sid, "script": t.line()[:4000]},
+                              {"symbol": m["sym"], "what": reg, "preset": pz})
+    missing = sorted(e for e in entries if not (only and not re.search(only, e)) and any((e, pz) not in seen for pz in PRESETS))
+    rep.notes["c19_dispatch_first_call"] = {"dispatched_entries": len(entries), "presets": PRESETS, "first_calls_observed": len(seen),
+                                            "entries_without_first_call_under_some_preset": missing,
+                                            "families_bound_per_preset": {pz: len(v) for pz, v in bound.items()}}
+    if missing:
+        rep.violation("dispatched entries whose first call was not observed under every preset: %s" % missing[:10], {"missing": missing},
+                      {"kind": "dispatch-coverage"}, no_input=True)
+    return seen
 
 
 def leak_where(item):
@@ -1370,7 +1446,7 @@ def dynamic_c14(rep, tier, only=None):
 def main():
     import argparse
     ap = argparse.ArgumentParser()
-    ap.add_argument("what", choices=["c19", "c14", "list"])
+    ap.add_argument("what", choices=["c19", "c14", "c19d", "list"])
     ap.add_argument("--tier", default=None)
     ap.add_argument("--only", default=None)
     a = ap.parse_args()
@@ -1381,7 +1457,7 @@ def main():
         print("typed %d untyped %d %s" % (len(typed), len(untyped), {k: len(v) for k, v in notcalled.items()}))
         print("untyped:", untyped)
         return 0
-    pid = {"c19": "C19dyn", "c14": "C14dyn"}[a.what]
+    pid = {"c19": "C19dyn", "c14": "C14dyn", "c19d": "C19dyn"}[a.what]
     rep = vlib.Report(pid, "exploration", t, "python3 checks/tramp.py " + a.what)
     # known findings are keyed by the real property id
     rep_pid = pid[:3]
@@ -1392,7 +1468,12 @@ def main():
                 return k
         return None
     rep.match_known = mk
-    (dynamic_c19 if a.what == "c19" else dynamic_c14)(rep, t, a.only)
+    if a.what == "c19":
+        dynamic_c19(rep, t, a.only)
+    elif a.what == "c19d":
+        dynamic_c19_dispatch(rep, t, a.only)
+    else:
+        dynamic_c14(rep, t, a.only)
     return rep.finish()
 
 
